@@ -130,6 +130,9 @@ structure State where
   nextToi : Nat
   log : List Ev
   panic : Option String
+  /-- ghost (no influence on behaviour): inside `Sender::read`, after the first poll of the FDT session
+      returned nothing and before the queues have been visited -/
+  quiet : Bool := false
 
 /-! ### descriptor store -/
 
@@ -259,25 +262,39 @@ def currentFdtWillExpire (s : State) (now : Nat) : Bool :=
     else decide (s.cfg.fdtDuration ≤ d)
   | _, _ => true
 
-/-- `Fdt::get_next_fdt_transfer` -/
-def getNextFdt (s : State) (now : Nat) : State × Option Nat :=
-  let busy := match s.curFdt with
-    | some k => (match getF s.fdts k with | some f => f.info.transferring | none => false)
-    | none => false
-  if busy then (s, none) else
-  let s := if currentFdtWillExpire s now then publish s now else s
-  let s := match s.fdtQueue with
-    | k :: rest => { s with curFdt := some k, fdtQueue := rest }
-    | [] => s
+/-- is the current FDT instance in transfer? (first test of `get_next_fdt_transfer`) -/
+def fdtBusy (s : State) : Bool :=
+  match s.curFdt with
+  | some k => (match getF s.fdts k with | some f => f.info.transferring | none => false)
+  | none => false
+
+/-- `if self.current_fdt_will_expire(now) { self.publish(now) }` -/
+def fdtMaybePublish (s : State) (now : Nat) : State :=
+  if currentFdtWillExpire s now then publish s now else s
+
+/-- `if !fdt_transfer_queue.is_empty() { current_fdt_transfer = fdt_transfer_queue.pop_front() }` -/
+def fdtPop (s : State) : State :=
+  match s.fdtQueue with
+  | k :: rest => { s with curFdt := some k, fdtQueue := rest }
+  | [] => s
+
+/-- `current_fdt_transfer.transfer_started(now)` -/
+def fdtStartStep (s : State) (k now : Nat) : State :=
+  emit { s with fdts := updF s.fdts k (fun f => transferInit f now 0) } (.fdtStart now k)
+
+/-- tail of `get_next_fdt_transfer` -/
+def fdtTryStart (s : State) (now : Nat) : State × Option Nat :=
   match s.curFdt with
   | none => (s, none)
   | some k =>
     match getF s.fdts k with
     | none => (s, none)
     | some f =>
-      if !shouldTransferNow f 0 s.cfg.mode now then (s, none) else
-      let s := { s with fdts := updF s.fdts k (fun f => transferInit f now 0) }
-      (emit s (.fdtStart now k), some k)
+      if shouldTransferNow f 0 s.cfg.mode now then (fdtStartStep s k now, some k) else (s, none)
+
+/-- `Fdt::get_next_fdt_transfer` -/
+def getNextFdt (s : State) (now : Nat) : State × Option Nat :=
+  if fdtBusy s then (s, none) else fdtTryStart (fdtPop (fdtMaybePublish s now)) now
 
 /-- first element of the waiting queue that should transfer now -/
 def findNext (s : State) (prio now : Nat) : List Nat → Option Nat
@@ -292,18 +309,22 @@ def tkGet (ticks : List (Nat × Nat)) (toi : Nat) : Nat :=
   | some p => p.2
   | none => 0
 
+/-- removal from the waiting queue, `StartTransfer` event, `transfer_started` -/
+def fileStartStep (s : State) (t now tk : Nat) : State :=
+  { emit { s with queue := s.queue.erase t } (.start now t) with
+    objs := updF s.objs t (fun f => transferInit f now tk) }
+
+/-- automatic publication at transfer start (`ObjectsBeingTransferred`) -/
+def autoPublish (s : State) (now : Nat) : State :=
+  match s.cfg.mode with
+  | .being => publish s now
+  | .full => s
+
 /-- `Fdt::get_next_file_transfer` -/
 def getNextFile (s : State) (prio now : Nat) (ticks : List (Nat × Nat)) : State × Option Nat :=
   match findNext s prio now s.queue with
   | none => (s, none)
-  | some t =>
-    let s := { s with queue := s.queue.erase t }
-    let s := emit s (.start now t)
-    let s := { s with objs := updF s.objs t (fun f => transferInit f now (tkGet ticks t)) }
-    let s := match s.cfg.mode with
-      | .being => publish s now
-      | .full => s
-    (s, some t)
+  | some t => (autoPublish (fileStartStep s t now (tkGet ticks t)) now, some t)
 
 /-- `Fdt::transfer_done` for the FDT -/
 def transferDoneFdt (s : State) (k now : Nat) : State :=
@@ -437,19 +458,24 @@ def readQueues : State → List QSess → Nat → List (Nat × Nat) → State ×
       (s, q' :: rest', out)
     | o => (s, q' :: rest, o)
 
+/-- last stage of `Sender::read`: the FDT session once more -/
+def readTail (s : State) (now : Nat) : State × Out :=
+  match runFdt runFuel s now with
+  | (s, .none) => (emit s (.idle now), .none)
+  | r => r
+
+/-- middle stage of `Sender::read`: the priority queues in ascending order -/
+def readMid (s : State) (now : Nat) (ticks : List (Nat × Nat)) : State × Out :=
+  let r := readQueues s s.sessions now ticks
+  let s2 : State := { r.1 with sessions := r.2.1, quiet := false }
+  match r.2.2 with
+  | .none => readTail s2 now
+  | o => (s2, o)
+
 /-- `Sender::read` -/
 def read (s : State) (now : Nat) (ticks : List (Nat × Nat)) : State × Out :=
-  let s := emit s (.opRead now)
-  match runFdt runFuel s now with
-  | (s, .none) =>
-    let (s, qs, out) := readQueues s s.sessions now ticks
-    let s := { s with sessions := qs }
-    (match out with
-    | .none =>
-      (match runFdt runFuel s now with
-      | (s, .none) => (emit s (.idle now), .none)
-      | r => r)
-    | o => (s, o))
+  match runFdt runFuel (emit s (.opRead now)) now with
+  | (s1, .none) => readMid { s1 with quiet := true } now ticks
   | r => r
 
 /-- `Sender::new` -/
